@@ -10,20 +10,38 @@ EXTENDS Integers, Sequences, FiniteSets, TLC, Json, IOUtils, HapCallingDefs
 
 Trace == JsonDeserialize(IOEnv.TRACE_FILE)
 
-VARIABLES l, bad
-vars == <<l, bad>>
+VARIABLES l, bad, cur      \* cur = the model's report for line l, computed once per line (TLC does not cache LET values)
+vars == <<l, bad, cur>>
 
 Abs(x) == IF x < 0 THEN -x ELSE x
 Close(v, k, n) == v >= 0 /\ 2 * Abs(v * n - 1000 * k) <= n
 
-SampleVerdict(e, s, o, masked) ==
-  LET p == e.post[s]
-      P == e.ps[s]
+AltValid(e, called) == LET o == e.out.alt IN Injective(o) /\ {o[i] : i \in 1..Len(o)} = (called \ {0})
+
+(* everything the verdict needs, evaluated eagerly; sample reports only if the printed ALT list is the called set *)
+Prep(e) ==
+  LET called == Called(e.post, e.k, e.theta, e.m)
+      masked == 0 \notin called
+  IN  TLCEval([ called |-> called,
+                masked |-> masked,
+                scores |-> IF AltValid(e, called)
+                           THEN [i \in 1..Len(e.out.alt) |-> Score(e.post, e.out.alt[i], e.theta, e.m)] ELSE <<>>,
+                samples |-> IF AltValid(e, called)
+                            THEN [s \in 1..Len(e.ps) |->
+                                    LET r == SampleReport(e.post[s], e.ps[s], e.out.alt, masked)
+                                    IN  [r |-> r, ranks |-> {x[1] : x \in r.gp}]]
+                            ELSE <<>> ])
+
+SampleVerdict(e, s, c) ==
+  LET P == e.ps[s]
       out == e.out.samples[s]
-      nrec == Len(o) + 1
-      labelled == {o[i] : i \in 1..Len(o)} \cup (IF masked THEN {} ELSE {0})
-      r == SampleReport(p, P, o, masked)
-      gpAt(i) == LET hit == {x \in r.gp : x[1] = i} IN IF hit = {} THEN 0 ELSE (CHOOSE x \in hit : TRUE)[2]
+      nrec == Len(e.out.alt) + 1
+      masked == c.masked
+      r == c.samples[s].r
+      ranks == c.samples[s].ranks
+      (* every listed genotype carries its probability, every other entry is 0 (linear in the array length) *)
+      gpOk == /\ \A x \in r.gp : Close(out.gp[x[1] + 1], x[2], e.m)
+              /\ \A i \in 1..r.gpLen : (i - 1) \in ranks \/ out.gp[i] = 0
   IN  IF ~(\E cl \in r.calls : cl[2] = out.gt) THEN "GtDotIffExcluded"
       ELSE IF Len(out.afp) # nrec \/ Len(out.aop) # nrec THEN "AfpAopLength"
       ELSE IF ~(\A i \in 1..nrec : \/ Close(out.afp[i], r.afp[i], e.m * P)
@@ -35,33 +53,31 @@ SampleVerdict(e, s, o, masked) ==
       ELSE IF out.gp = <<>> THEN "ok"                        \* GP not requested for this line
       ELSE IF out.gp = <<-1>> \/ Len(out.gp) # r.gpLen           \* printed "." or wrong number of entries
            THEN (IF masked THEN "GpRefMaskedLength" ELSE "GpLength")
-      ELSE IF ~(\A i \in 1..r.gpLen : Close(out.gp[i], gpAt(i - 1), e.m)) THEN "GpIsPosterior"
+      ELSE IF ~gpOk THEN "GpIsPosterior"
       ELSE IF SumSeq(out.gp) > 1000 + r.gpLen THEN "GpSumAtMostOne"
       ELSE "ok"
 
-RECURSIVE FirstBad(_, _, _, _)
-FirstBad(e, s, o, masked) ==
+RECURSIVE FirstBad(_, _, _)
+FirstBad(e, s, c) ==
   IF s > Len(e.ps) THEN "ok"
-  ELSE LET v == SampleVerdict(e, s, o, masked) IN IF v = "ok" THEN FirstBad(e, s + 1, o, masked) ELSE v
+  ELSE LET v == SampleVerdict(e, s, c) IN IF v = "ok" THEN FirstBad(e, s + 1, c) ELSE v
 
-Verdict(e) ==
-  LET th == e.theta
-      called == Called(e.post, e.k, th, e.m)
-      o == e.out.alt
-      oset == {o[i] : i \in 1..Len(o)}
-      masked == 0 \notin called
-  IN  IF \E s \in 1..Len(e.post) : Total(e.post[s]) # e.m THEN "PosteriorTotal"
-      ELSE IF ~Injective(o) \/ oset # (called \ {0}) THEN "AltIffThreshold"
-      ELSE IF ~(\A i \in 1..(Len(o) - 1) : Score(e.post, o[i], th, e.m) >= Score(e.post, o[i + 1], th, e.m)) THEN "AltOrder"
-      ELSE IF e.out.masked # masked THEN "RefMaskedIff"
-      ELSE FirstBad(e, 1, o, masked)
+Verdict(e, c) ==
+  IF \E s \in 1..Len(e.post) : Total(e.post[s]) # e.m THEN "PosteriorTotal"
+  ELSE IF ~AltValid(e, c.called) THEN "AltIffThreshold"
+  ELSE IF ~(\A i \in 1..(Len(c.scores) - 1) : c.scores[i] >= c.scores[i + 1]) THEN "AltOrder"
+  ELSE IF e.out.masked # c.masked THEN "RefMaskedIff"
+  ELSE FirstBad(e, 1, c)
 
-Init == l = 1 /\ bad = 0
+PrepAt(i) == IF i <= Len(Trace) THEN Prep(Trace[i]) ELSE <<>>
+
+Init == l = 1 /\ bad = 0 /\ cur = PrepAt(1)
 Next == /\ l <= Len(Trace)
-        /\ LET v == Verdict(Trace[l])
+        /\ LET v == Verdict(Trace[l], cur)
            IN  /\ IF v = "ok" THEN TRUE ELSE PrintT(<<"@@J", ToJson([reject |-> l, clause |-> v])>>)
                /\ bad' = IF v = "ok" THEN bad ELSE bad + 1
         /\ l' = l + 1
+        /\ cur' = PrepAt(l + 1)
 Spec == Init /\ [][Next]_vars
 Consumed == (l = Len(Trace) + 1) => PrintT(<<"@@J", ToJson([consumed |-> l - 1, rejected |-> bad])>>)
 =============================================================================
